@@ -2,7 +2,7 @@
    Model: coq/C14/Model.v (routines of src/particle.c in their order of checks); specification: a plain
    particle list with N_active / N_var / tree-present ([astate], [res_ok], [aspec]). *)
 From Coq Require Import List ZArith NArith Bool Arith Lia.
-From RV Require Import C14.Murmur C14.Model C14.ProofsA C14.ProofsB C14.ProofsC C14.PyLayer C14.Hybrid C14.HybridProofs C14.StepGuard.
+From RV Require Import C14.Murmur C14.Model C14.ProofsA C14.ProofsB C14.ProofsC C14.PyLayer C14.Hybrid C14.HybridProofs C14.StepGuard C14.Callback.
 Import ListNotations.
 Close Scope N_scope.
 
@@ -12,7 +12,7 @@ Close Scope N_scope.
    removal = last particle moved into the hole; growth of the storage invisible; N_active stays consistent.
    [run_ok]: the only hypothesis is that the user's own writes of N_active are consistent when made. *)
 Theorem C14_refines : forall tr ops s' rs, run_ok (init tr) ops -> run (init tr) ops = (s', rs) ->
-  spec_trace (mkA [] (-1) 0 tr) ops rs (abs s') /\ nact_ok (abs s').
+  spec_trace (mkA tr [] (-1) 0 tr) ops rs (abs s') /\ nact_ok (abs s').
 Proof. exact refines. Qed.
 Print Assumptions C14_refines.
 
@@ -91,7 +91,7 @@ Theorem C14_py_setitem : forall s k p s' r, wf s -> py_step s (PySet k p) = (s',
   ((r = PRNone /\ exists i, i < length (aps (abs s)) /\
       (match k with KInt z => py_index (length (aps (abs s))) z = Some i
                   | _ => Some (phash (nth i (aps (abs s)) pzero)) = key_hash k end) /\
-      abs s' = mkA (upd (aps (abs s)) i p) (aNact (abs s)) (aNvar (abs s)) (atree (abs s)))
+      abs s' = mkA (acfg (abs s)) (upd (aps (abs s)) i p) (aNact (abs s)) (aNvar (abs s)) (atree (abs s)))
    \/ ((r = PRAttributeError \/ r = PRNotFound) /\ abs s' = abs s)).
 Proof. exact py_setitem. Qed.
 Print Assumptions C14_py_setitem.
@@ -144,6 +144,56 @@ Theorem C14_trace_Ks_remove_exact : forall n index k ob k' ob', S n * S n <= len
     nth (a * n + b) k' 0%Z = nth ((if a <? index then a else S a) * S n + (if b <? index then b else S b)) k 0%Z.
 Proof. exact ks_remove_exact. Qed.
 Print Assumptions C14_trace_Ks_remove_exact.
+
+(* TRACE current_Ks on reb_simulation_add: the in-place expansion of the stride from n to n+1 puts every old
+   entry (a,b) at (a,b) of the wider matrix, writes nothing else, stays inside a block of (n+1)^2 entries, and
+   (rows and columns being walked downwards) never overwrites an entry before it has been read *)
+Theorem C14_trace_Ks_add_exact : forall n k ob k' ob', S n * S n <= length k -> ks_grow n n k ob = (k', ob') ->
+  ob' = ob /\ length k' = length k /\
+  (forall a b, a < n -> b < n -> nth (a * S n + b) k' 0%Z = nth (a * n + b) k 0%Z) /\
+  (forall q, (forall a b, a < n -> b < n -> q <> a * S n + b) -> nth q k' 0%Z = nth q k 0%Z).
+Proof. exact ks_grow_exact. Qed.
+Print Assumptions C14_trace_Ks_add_exact.
+(* ... then the column of the new particle is set to 1 exactly for encounter_map[1..encounter_N) and NOTHING
+   else is written: the rest of the new column and the whole new row keep what the block contained
+   (last clause; open finding trace_add_Ks_new_column_uninitialised) *)
+Theorem C14_trace_Ks_add_mark : forall cnt i n m k ob k' ob', i + cnt <= length m ->
+  (forall t, i <= t < i + cnt -> (0 <= nth t m 0 < Z.of_nat n)%Z) -> S n * S n <= length k ->
+  ks_mark cnt i (S n) n m k ob = (k', ob') ->
+  ob' = ob /\ length k' = length k /\
+  (forall t, i <= t < i + cnt -> nth (Z.to_nat (nth t m 0%Z) * S n + n) k' 0%Z = 1%Z) /\
+  (forall q, (forall t, i <= t < i + cnt -> q <> Z.to_nat (nth t m 0%Z) * S n + n) -> nth q k' 0%Z = nth q k 0%Z).
+Proof. exact ks_mark_spec. Qed.
+Print Assumptions C14_trace_Ks_add_mark.
+
+(* The hybrid arrays follow N through the encounter step.  ri_*.N_allocated (= length of encounter_map) is also
+   the size of particles_backup / particles_backup_kepler (reallocated together), current_Ks has
+   N_allocated^2 entries.  [hyb_ok]: encounter_map is a valid (strictly increasing) injection of its
+   encounter_N live entries into [0,N), N <= N_allocated, N_allocated^2 <= |current_Ks|. *)
+Theorem C14_hybrid_add_ok : forall s h p d s' h', active h = true -> hyb_ok s h -> hadd s h p d = (s', h') ->
+  hyb_ok s' h' /\ hoob h' = hoob h /\ sN s' = S (sN s) /\ eN h' = S (eN h).
+Proof. exact hadd_ok. Qed.
+Print Assumptions C14_hybrid_add_ok.
+Theorem C14_hybrid_remove_ok : forall s h z keep s' h' r p, active h = true -> hyb_ok s h ->
+  p < eN h -> nth p (emap h) zd = z -> hremove s h z keep = (s', h', r) -> r <> RFail ->
+  hyb_ok s' h' /\ hoob h' = hoob h /\ sN s' = sN s - 1 /\ eN h' = eN h - 1.
+Proof. exact hremove_ok. Qed.
+Print Assumptions C14_hybrid_remove_ok.
+
+(* ---- free_particle_ap as an event log: coq/C14/Callback.v *)
+(* every successful removal (by index or hash, all four paths) calls the callback exactly once, on the
+   removed particle as it is before its slot is overwritten (already flagged y=NaN on the deferred tree
+   path); failed requests call nothing *)
+Theorem C14_callback_once : forall s o s' r, wf s ->
+  match o with RemoveIdx _ _ | RemoveHash _ _ => True | _ => False end ->
+  step s o = (s', r) -> step_cb s o = cb_spec (abs s) r.
+Proof. exact callback_once. Qed.
+Print Assumptions C14_callback_once.
+(* remove-all calls no callback: "once per removed particle" is refuted there (open finding
+   remove_all_tree_and_callback) *)
+Theorem C14_callback_remove_all_refuted : exists s, wf s /\ aps (abs s) <> [] /\ step_cb s RemoveAll = [].
+Proof. exact callback_remove_all_refuted. Qed.
+Print Assumptions C14_callback_remove_all_refuted.
 
 (* ---- a step whose part1 failed must not touch integrator arrays sized for an earlier N: coq/C14/StepGuard.v
    (abstract model: p_jh has N_allocated records, init fails before resizing or resizes to N, every
